@@ -6,12 +6,14 @@
     - [C10_isolation] (libcst): positive branch when both try blocks are present — step level:
       nothing escapes; each file's outcome is a function of its OWN content (so no fault in a sibling alters it); a
       failing selected file is not written, yields the failure record with every finding unfixed at line 0.
-    - [C10_regex_refuted]: the same statement at the regex pipeline, whose [apply] has no try: negative branch — a
-      two-codemod run on a project with one undecodable file aborts (status 1, no report)  [kf_regex_no_isolation].
-    - [C10_xml_refuted]: the same statement at the XML pipeline.  Its [apply] guards the SAX parse but re-reads the file
-      with .decode("utf-8") OUTSIDE the try block; the table records TryParse only when every read of the parse stage is
-      guarded, so on the current tree this is the negative branch [kf_xml_reread_no_isolation].  (The model then treats
-      every read failure of the XML pipeline as escaping; a malformed document is in fact caught - observed by the probe.)
+    - [C10_isolation_regex]: the same table-indexed statement at the regex pipeline.  On the pinned tree its [apply] had no
+      try (negative branch: a two-codemod run on a project with one undecodable file aborts, status 1, no report; finding
+      kf_regex_no_isolation, FIXED by 49f7472); on the current tree both guards are present and this is the isolation law.
+    - [C10_isolation_xml]: the same statement at the XML pipeline.  The table records TryParse only when every read of the
+      parse stage is guarded; the pinned [apply] re-read the file with .decode("utf-8") OUTSIDE the try block (negative
+      branch, finding kf_xml_reread_no_isolation, FIXED by c634845); on the current tree this is the isolation law.
+      Which branch is active for the current source is read from Generated/tables.json by the check and compared with the
+      behaviour of the real classes (harness/c10.py: regex/xml probes).
     - [C10_run_isolation]: run level, any codemod list whose pipelines have both tries (every table value): the run on
       the project and the run on the project WITHOUT the bad file both complete (exit 0, report) and end in the same
       file system, stores, change sets, dependencies and dependency records per codemod; failedFiles / unfixedFindings
@@ -52,12 +54,12 @@ Qed.
 Theorem C10_isolation : C10_isolation_statement run_tables_v PLibcst.
 Proof. exact (C10_isolation_all run_tables_v PLibcst). Qed.
 Print Assumptions C10_isolation.
-Theorem C10_xml_refuted : C10_isolation_statement run_tables_v PXml.
+Theorem C10_isolation_xml : C10_isolation_statement run_tables_v PXml.
 Proof. exact (C10_isolation_all run_tables_v PXml). Qed.
-Print Assumptions C10_xml_refuted.
-Theorem C10_regex_refuted : C10_isolation_statement run_tables_v PRegex.
+Print Assumptions C10_isolation_xml.
+Theorem C10_isolation_regex : C10_isolation_statement run_tables_v PRegex.
 Proof. exact (C10_isolation_all run_tables_v PRegex). Qed.
-Print Assumptions C10_regex_refuted.
+Print Assumptions C10_isolation_regex.
 
 (** the aborted run: status 1 and no report *)
 Theorem C10_aborted_no_report : forall Ks s, exit_status (Aborted s) = 1%Z /\ report Ks (Aborted s) = None.
